@@ -42,6 +42,14 @@ pub fn run(tier: &str, seed: u64, dir: &str) {
             sink.case(&op, &eval(&op), "counter-history", true);
         }
     }
+    // builder X — uplink-typed frames of the session (the device's own uplink echoed back octet for octet, and one
+    // rebuilt at the next fresh downlink counter) in RX1 / RX2 / RXC: not frames for an end-device, whatever their MIC
+    for region in REGIONS {
+        for k in 0..(if thorough { 144 } else { 24 }) {
+            let op = uplink_echo_history("C06", &mut rng, region, k);
+            sink.case(&op, &eval(&op), "uplink-echo", true);
+        }
+    }
     // device level (non-blocking front-end): an error / unexpected answer at every radio call
     for region in ["EU868", "US915"] {
         let mut v = vec![];
